@@ -53,3 +53,19 @@ class Running(Transform):
             with torch.no_grad():
                 self.running_mean = torch.lerp(self.running_mean, mean, 0.1)
         return inputs - mean, inputs.new_zeros(inputs.shape[0])
+
+
+class Lazy(Transform):
+    def __init__(self, features):
+        super().__init__()
+        self.gain = nn.Parameter(torch.zeros(features))
+
+    def _setup(self, inputs):
+        self.gain = nn.Parameter(inputs.std(0).log())
+
+    def forward(self, inputs, context=None):
+        if self.training:
+            self._setup(inputs)
+        s = torch.sigmoid(inputs + self.gain)
+        logabsdet = (torch.log(s) + torch.log1p(-s)).sum(-1)
+        return s, logabsdet
